@@ -20,6 +20,7 @@ use fuel_core::fuel_core_graphql_api::{
     },
     storage::coins::CoinsToSpendIndexKey,
     verif_hooks::{balances_update, coins_to_spend_update, BalanceUpdate, CoinsToSpendUpdate},
+    worker_service::verif_update_event_based_indexation,
 };
 use fuel_core_storage::{Error as StorageError, Mappable, Result as StorageResult, StorageInspect, StorageMutate};
 use fuel_core_types::{
@@ -414,6 +415,54 @@ pub fn to_spend_step<S: Src>(s: &mut S) {
     std::mem::forget(event);
 }
 
+/// One event through the private `update_event_based_indexation` of the worker
+/// service with both enable flags symbolic: each flag governs its own index
+/// (the balances tables move only under the balances flag, the coins-to-spend
+/// index only under its own flag).
+pub fn event_flags_step<S: Src>(s: &mut S) {
+    let owner = addr(s.u8());
+    let asset_id = asset(s.u8());
+    let base_asset = asset(s.u8());
+    let amount = s.u64();
+    let is_coin = s.bool();
+    let add = s.bool();
+    let balances_enabled = s.bool();
+    let to_spend_enabled = s.bool();
+    let event = if is_coin {
+        let coin = Coin { utxo_id: Default::default(), owner, amount, asset_id, tx_pointer: Default::default() };
+        if add { Event::CoinCreated(coin) } else { Event::CoinConsumed(coin) }
+    } else {
+        let message = Message::V1(MessageV1 { sender: addr(9), recipient: owner, nonce: Default::default(), amount, data: Vec::new(), da_height: Default::default() });
+        if add { Event::MessageImported(message) } else { Event::MessageConsumed(message) }
+    };
+    let mut tx = MockTx {
+        coin_key: None, coin_val: None, coin_reads: 0, coin_writes: 0,
+        msg_key: None, msg_val: None, msg_reads: 0, msg_writes: 0,
+        stored_coin_key: CoinBalancesKey::new(&addr(0), &asset(0)), stored_msg_key: addr(0), other: 0,
+        idx_present: None, idx_inserted: None, idx_removed: None, idx_inserts: 0, idx_removes: 0,
+        owned_coin_inserted: None, owned_coin_removed: None, owned_msg_inserted: None, owned_msg_removed: None, spent_msg_inserted: None, owned_writes: 0,
+    };
+    let ok = verif_update_event_based_indexation(&event, &mut tx, balances_enabled, to_spend_enabled, &base_asset);
+    let balance_writes = tx.coin_writes + tx.msg_writes;
+    let index_writes = tx.idx_inserts + tx.idx_removes;
+    if !balances_enabled {
+        vassert!(balance_writes == 0, "C36 the balances index moves only when balances indexation is enabled");
+    }
+    if !to_spend_enabled {
+        vassert!(index_writes == 0, "C36 the coins-to-spend index moves only when its indexation is enabled");
+    }
+    if add {
+        // an empty store: additions cannot fail
+        vassert!(ok, "C36 a new resource is indexed by every enabled index");
+        vassert!(balance_writes == balances_enabled as u32, "C36 the balances index records a new resource exactly when enabled");
+        vassert!(index_writes == to_spend_enabled as u32, "C36 the coins-to-spend index lists a new resource exactly when enabled");
+    }
+    vassert!(tx.other == 0 && tx.owned_writes == 0, "C36 the event-based indexation touches only the two indexes");
+    vreach!();
+    vreach!(add && balances_enabled && !to_spend_enabled, "C36 balances-only configuration reachable");
+    std::mem::forget(event);
+}
+
 #[cfg(kani)]
 mod proofs {
     use super::*;
@@ -433,4 +482,5 @@ mod proofs {
     proof!(c36_coin_step, coin_step);
     proof!(c36_message_step, message_step);
     proof!(c36_to_spend_step, to_spend_step);
+    proof!(c36_event_flags, event_flags_step);
 }
